@@ -148,3 +148,16 @@ Definition engine_model (l : list econf) : option Z :=
 Definition oz_eqb (a b : option Z) : bool :=
   match a, b with Some x, Some y => x =? y | None, None => true | _, _ => false end.
 Definition agrees_engine (c : list econf * option Z) : bool := oz_eqb (engine_model (fst c)) (snd c).
+
+(* --- part G: one EngineBuilder driven by a script of set_epochs / set_duration / build calls ---
+   observed events: setter accepted / rejected; for every build the schedule and the
+   jitted_sample_duration the Engine constructor received (or an exception) *)
+Definition bevent_eqb (a b : bevent) : bool :=
+  match a, b with
+  | ESet x, ESet y => Bool.eqb x y
+  | EBuilt l ch, EBuilt l' ch' => list_eqb econf_eqb l l' && (ch =? ch')
+  | EBuildError, EBuildError => true
+  | _, _ => false
+  end.
+Definition agrees_script (c : list bop * list bevent) : bool :=
+  list_eqb bevent_eqb (brun None (fst c)) (snd c).
